@@ -7,6 +7,7 @@ import (
 	_ "verif/h/c04"
 	_ "verif/h/c07"
 	_ "verif/h/c08"
+	_ "verif/h/c09"
 	_ "verif/h/c13"
 	_ "verif/h/c14"
 	_ "verif/h/c15"
